@@ -411,13 +411,14 @@ const (
 )
 
 func (h *H) startWatch() {
-	h.watchStop = make(chan struct{})
+	stop := make(chan struct{})
+	h.watchStop = stop
 	go func() {
 		tk := time.NewTicker(500 * time.Millisecond)
 		defer tk.Stop()
 		for {
 			select {
-			case <-h.watchStop:
+			case <-stop:
 				return
 			case <-tk.C:
 			}
